@@ -15,7 +15,8 @@
      mask_ok C      the event mask contains IN_CREATE, IN_MOVED_FROM, IN_MOVED_TO (WATCHDOG_ALL does) *)
 Require Import WD.Base.Prelude WD.Base.BStr WD.Model.SubEvents WD.Model.Emitter WD.Model.Fs WD.Model.Reader
                WD.Model.Pipeline WD.Proofs.CoverProofs WD.Proofs.CoverOutProofs WD.Proofs.ReplayPipeProofs
-               WD.Proofs.C11LagProofs WD.Proofs.TidyCoverProofs.
+               WD.Proofs.C11LagProofs WD.Proofs.TidyCoverProofs
+               WD.Proofs.CutsProofs WD.Proofs.CutsReaderProofs WD.Proofs.CutsShapeProofs WD.Proofs.CutsPipeProofs.
 
 (* ---- 1. well-formed file systems are closed under every applicable operation on normal paths *)
 Theorem C02_wf_preserved : forall w o w', wf_fs w -> op_np o -> apply_op w o = Some w' -> wf_fs w'.
@@ -546,3 +547,70 @@ Proof.
   - apply C02_tidy_from; [reflexivity | reflexivity | reflexivity | exact w0_wf | vm_compute; reflexivity
                            | exact (proj2 C02_f10_ops_x_nonvacuous)].
 Qed.
+
+(* ================================================================== how the kernel's buffer is split between reads *)
+(* reader level: the records of one operation read in several reads (rcut: read j takes the next n_j records, the reader's
+   kernel holds the unread rest, every read starts with an empty event list; no operation in between) leave the reader
+   and its kernel exactly where one big read leaves them, and the events of the reads, concatenated, are the events of
+   the big read.  ignfree: the IN_IGNORED records in the queue are about descriptors that are no longer watched (true
+   after every operation from every state of the sequential invariant: C02_kernel_frame). *)
+Theorem C02_cut_reads : forall C, c_fix_moveout C = true -> forall t r k cuts r' k' raws,
+  ignfree (k_queue k) k -> fold_right plus 0%nat cuts = length (k_queue k) ->
+  read_batch C t (r, drainq k, []) (k_queue k) = Done (r', k', raws) ->
+  exists Rs, rcut C t r k cuts = Done (r', k', Rs) /\ concat Rs = raws.
+Proof. exact rcut_eq. Qed.
+Print Assumptions C02_cut_reads.
+
+Theorem C02_kernel_frame : forall C w k r hot t o, GS C w k r hot -> KQ (kernel_op k t o).
+Proof. exact GS_kernel_KQ. Qed.
+Print Assumptions C02_kernel_frame.
+
+(* the pairing condition of the buffer-level theorem (C01_tie_cuts) holds for EVERY cut of the records of one operation
+   from every state of the sequential invariant: the kernel queues the two halves of a rename back to back, a move record
+   gives at most one event, no other record gives a move event (cut_paired: if a TO's FROM was delivered by an earlier
+   read of the block, the TO is the first event of its read and the FROM the last event before it) *)
+Theorem C02_cut_paired : forall C w k r hot o w' cuts, c_faults C = [] -> c_fix_moveout C = true -> c_mask C = WATCHDOG_ALL ->
+  GS C w k r hot -> step_ok C w hot o -> apply_op w o = Some w' ->
+  sum cuts = length (k_queue (kernel_op k (w_fs w) o)) -> cut_paired C (w_fs w') r (kernel_op k (w_fs w) o) cuts.
+Proof. exact cut_paired_gs. Qed.
+Print Assumptions C02_cut_paired.
+
+(* pipeline level, one block  AOp o; ARead n1; ...; ARead nj; ATick delay; AEmit x nit  with n1 + ... + nj = the number of
+   queued records (ANY such cut): the state after the block is synchronised exactly as after the block with one read, the
+   reader state and kernel are those of the one big read, and the delivered events are the same. *)
+Theorem C02_cover_block_cuts_partial : forall P s hot o w' cuts, let C := pc_reader P in
+  c_faults C = [] -> c_fix_moveout C = true -> c_mask C = WATCHDOG_ALL -> pc_filter P = None ->
+  PSx P s hot -> step_ok C (p_world s) hot o -> apply_op (p_world s) o = Some w' ->
+  sum cuts = length (k_queue (kernel_op (p_k s) (w_fs (p_world s)) o)) ->
+  exists nit s' obs raws, prun P s (cut_history P o cuts nit) [] = Done (s', obs) /\
+    PSx P s' (hot_next C (p_world s) hot o) /\ p_world s' = w' /\
+    p_out s' = p_out s ++ ReplayProofs.delivered C (pc_full P) w' raws /\
+    read_batch C (w_fs w') (p_r s, drainq (kernel_op (p_k s) (w_fs (p_world s)) o), [])
+               (k_queue (kernel_op (p_k s) (w_fs (p_world s)) o)) = Done (p_r s', p_k s', raws).
+Proof. exact block_cuts. Qed.
+Print Assumptions C02_cover_block_cuts_partial.
+
+(* histories of any length (the histories of C02_cover_sequential_pipeline_partial); ct chooses the cut of every block,
+   sum_cutter: its cuts add up to the number of queued records - nothing else is asked of it *)
+Theorem C02_cover_sequential_pipeline_cuts_partial : forall P ct, let C := pc_reader P in
+  c_faults C = [] -> c_fix_moveout C = true -> c_mask C = WATCHDOG_ALL -> pc_filter P = None -> sum_cutter P ct ->
+  forall ops s hot, PSx P s hot -> ops_x C (p_world s) hot ops ->
+  exists h s' obs hot', cut_hist P ct s ops h /\ prun P s h [] = Done (s', obs) /\ PSx P s' hot' /\
+    Cover C (w_fs (p_world s')) (p_k s') (p_r s').
+Proof. exact blocks_cover_cuts. Qed.
+Print Assumptions C02_cover_sequential_pipeline_cuts_partial.
+
+Example C02_sum_cutter_nonvacuous : forall P,
+  sum_cutter P (fun s o => let n := length (k_queue (kernel_op (p_k s) (w_fs (p_world s)) o)) in [Nat.min 1 n; (n - Nat.min 1 n)%nat]).
+Proof. exact sum_cutter_first. Qed.
+
+
+(* mkdir R/a; mv R/a R/b read as [IN_MOVED_FROM] [IN_MOVED_TO] through the pipeline: same events, reader state and kernel
+   as with one read of both records; DirMoved(R/a, R/b) is delivered; R/b is covered *)
+Example C02_cut_rename_example :
+  exists s0 sc sb oc ob, pinit (Px true) w0 = Some s0 /\
+    prun (Px true) s0 hcut [] = Done (sc, oc) /\ prun (Px true) s0 hbig [] = Done (sb, ob) /\
+    p_out sc = p_out sb /\ p_r sc = p_r sb /\ p_k sc = p_k sb /\
+    In {| ev_cls := DirMoved; ev_src := sub pR 97; ev_dest := sub pR 98; ev_synth := false |} (p_out sc) /\
+    k_queue (p_k sc) = [] /\ Cover (cfgx true true) (w_fs (p_world sc)) (p_k sc) (p_r sc).
+Proof. exact cut_rename_example. Qed.
